@@ -71,6 +71,11 @@ type FuncContract struct {
 	Pure      bool // result is a function of arguments and heap; no allocation visible
 }
 
+// StoreInv: an invariant on the value stored into a field of an already published object
+type StoreInv struct {
+	Pkg, Field, Expr, Where string
+}
+
 type SpecFunc struct {
 	Name   string
 	Pkg    string
@@ -108,6 +113,7 @@ type Contracts struct {
 	ModSets  map[string]string // "pkg.NAME" -> item list
 	NonNil   []NonNilDecl
 	GlobalInvs []Clause // Label = package
+	StoreInvs  map[string]*StoreInv // "ast.ReserveStmt.Insert"
 }
 
 var reFunc = regexp.MustCompile(`^func\s+(?:\(\s*(\w+)\s+\*?(\w+)\s*\)\s*)?([\w$]+)\s*$`)
@@ -280,6 +286,21 @@ func (cs *Contracts) loadFile(repo, file string) error {
 			cs.NonNil = append(cs.NonNil, NonNilDecl{Pkg: pkg, Kind: f[1], What: strings.Join(f[2:], " "), Where: where})
 			cur = nil
 			appendTo = nil
+			continue
+		case "storeinv":
+			// storeinv pkg.Struct.Field: <expr over v>  -- asserted at every store to that
+			// field of an object the storing function did not allocate itself
+			parts := strings.SplitN(strings.TrimSpace(strings.TrimPrefix(l, "storeinv")), ":", 2)
+			if len(parts) != 2 {
+				return fmt.Errorf("%s: bad storeinv %q", where, l)
+			}
+			if cs.StoreInvs == nil {
+				cs.StoreInvs = map[string]*StoreInv{}
+			}
+			si := &StoreInv{Pkg: pkg, Field: strings.TrimSpace(parts[0]), Expr: strings.TrimSpace(parts[1]), Where: where}
+			cs.StoreInvs[si.Field] = si
+			cur = nil
+			appendTo = func(s string) { si.Expr += " " + s }
 			continue
 		case "modset":
 			parts := strings.SplitN(strings.TrimSpace(strings.TrimPrefix(l, "modset")), "=", 2)
